@@ -229,3 +229,33 @@ func (r *Replayer) Replay(dir string, f sym.Finding) (bool, string) {
 	}
 	return false, "native run did not fail: " + strings.ReplaceAll(tail, "\n", " | ")
 }
+
+// ReplayWitness runs the harness natively on the inputs of a completed symbolic
+// path. ok: the native run completed without a failed assertion and passed the
+// same Reach labels. serious: the native run failed an assertion or panicked
+// (the engine had decided every assertion of that path).
+func (r *Replayer) ReplayWitness(dir, harness string, w *sym.Witness) (ok, serious bool, why string) {
+	out, err := r.run(dir, harness, w.Model)
+	if err != nil {
+		return false, false, "replay build: " + firstLine(err.Error())
+	}
+	if i := strings.Index(out, "VRT-ASSERT-FAILED:"); i >= 0 {
+		return false, true, firstLine(out[i:])
+	}
+	if i := strings.Index(out, "VRT-PANIC:"); i >= 0 {
+		return false, true, firstLine(out[i:])
+	}
+	if strings.Contains(out, "VRT-ASSUME-VIOLATED") {
+		return false, false, "the native inputs violate an assumption (opaque value pools)"
+	}
+	if !strings.Contains(out, "VRT-DONE") {
+		return false, false, "the native run did not finish"
+	}
+	for _, l := range w.Reached {
+		if !strings.Contains(out, "VRT-REACH: "+l) {
+			return false, false, "the native run did not pass label " + l
+		}
+	}
+	r.nwit++
+	return true, false, ""
+}
